@@ -434,7 +434,7 @@ func runC15(rc *RunCtx) {
 					return
 				}
 			}
-		case op < 84: // bank transfer between players (can lift the poor account over the price, or sink another one)
+		case op < 82: // bank transfer between players (can lift the poor account over the price, or sink another one)
 			j := players[rc.Intn(len(players))]
 			if j == i {
 				continue
@@ -451,7 +451,7 @@ func runC15(rc *RunCtx) {
 			if !check(after) {
 				return
 			}
-		case op < 86: // other storage traffic that moves tokens through the module's other accounts: a purchase with or without a referrer
+		case op < 84: // other storage traffic that moves tokens through the module's other accounts: a purchase with or without a referrer
 			j := players[rc.Intn(len(players))]
 			ref := []string{"", c.Accs[j].Bech, c.Accs[0].Bech, strings.ToUpper(c.Accs[j].Bech)}[rc.Intn(4)]
 			r := c.DeliverAs(i, &storagetypes.MsgBuyStorage{Creator: a, ForAddress: a, DurationDays: int64(30 + rc.Intn(400)), Bytes: int64(1+rc.Intn(20)) * 1_000_000_000, PaymentDenom: "ujkl", Referral: ref})
@@ -464,10 +464,34 @@ func runC15(rc *RunCtx) {
 			if !check(after) {
 				return
 			}
-		case op < 89: // unrelated provider-record edit
-			r := c.DeliverAs(i, &storagetypes.MsgSetProviderTotalSpace{Creator: spell(a), Space: int64(rc.Intn(1_000_000))})
-			after := fmt.Sprintf("step %d h=%d SetProviderTotalSpace by acc%d -> code %d", s, c.Height, i, r.Code)
-			rc.Logf("%s", after)
+		case op < 90: // provider-record edits that are none of the collateral's business: offered space (0 and negative values pass
+			// stateless validation), claimers, address, keybase. None of them moves a token, removes the provider or redirects the refund.
+			j := players[rc.Intn(len(players))]
+			var m sdk.Msg
+			kind := rc.Intn(6)
+			switch kind {
+			case 0:
+				m = &storagetypes.MsgSetProviderTotalSpace{Creator: spell(a), Space: int64(rc.Intn(1_000_000))}
+			case 1:
+				m = &storagetypes.MsgSetProviderTotalSpace{Creator: spell(a), Space: rc.Pick([]int64{0, 0, -1, 1, -1_000_000})}
+			case 2:
+				m = &storagetypes.MsgAddClaimer{Creator: spell(a), ClaimAddress: c.Accs[j].Bech}
+			case 3:
+				m = &storagetypes.MsgRemoveClaimer{Creator: spell(a), ClaimAddress: c.Accs[j].Bech}
+			case 4:
+				m = &storagetypes.MsgSetProviderIP{Creator: spell(a), Ip: fmt.Sprintf("https://q%d.example.org:%d", i, 3000+rc.Intn(100))}
+			default:
+				m = &storagetypes.MsgSetProviderKeybase{Creator: spell(a), Keybase: "kb2"}
+			}
+			pre := c.Snapshot()
+			r := c.DeliverAs(i, m)
+			d := chain.Diff(pre, c.Snapshot())
+			after := fmt.Sprintf("step %d h=%d %T by acc%d (provider=%v, other=acc%d) -> code %d", s, c.Height, m, i, isProv[a], j, r.Code)
+			rc.Logf("%s %.80q", after, r.Log)
+			onlyMoves("C15/record-edit-moved-funds", after, d, map[string]int64{})
+			if r.OK() && isProv[a] {
+				rc.NonTrivial(fmt.Sprintf("record-edit/kind=%d", kind))
+			}
 			if !check(after) {
 				return
 			}
